@@ -481,9 +481,9 @@ PROPS['C03'] = {
     'technique': 'explicit-state BFS to fixpoint over pools of live containers: every ownership-moving operation from every reachable pool state, replayed on the real code, against a Vec-of-ids reference model and a drop ledger',
     'parts': [own_part()],
     'rule': ("system = a pool of live containers holding identity-carrying elements: GenericArray, its by-value iterator (with origin and position), native array, tuple, Vec, Box<[T]>, Box<GenericArray>, vec::IntoIter (boxed into_iter), nested GenericArray, and elements "
-             "handed back to the caller. Alphabet (60 operations, each consuming and producing pool members, so outputs of one are inputs of the next): generate (stack, boxed, nested), drop, into_iter, next, next_back, nth(k)/nth_back(k) for every k in 0..=len+1, "
+             "handed back to the caller. Alphabet (69 operations, each consuming and producing pool members, so outputs of one are inputs of the next): generate (stack, boxed, nested), drop, into_iter, next, next_back, nth(k)/nth_back(k) for every k in 0..=len+1, "
              "iterator clone, fold/rfold (dropping), count, last, collect into array / Box / Vec, append, prepend, pop_back, pop_front, split at every K, concat, remove(i)/swap_remove(i) for every i, map (pass-through, replacing, & and &mut forms), zip (keep left, keep right, "
-             "&x&, owned x &, &mut x owned), fold, Clone, flatten, unflatten (every divisor), to/from native array, to/from tuple, to Vec / Box<[T]> and back (right length and both neighbouring wrong lengths), Box::new / unbox, into_vec, into_boxed_slice, "
+             "&x&, owned x &, &mut x owned, and six mixed-type forms whose other operand is a plain u32 array: &, &mut, owned, as left operand, boxed), fold, Clone, flatten, unflatten (every divisor), to/from native array, to/from tuple, to Vec / Box<[T]> and back (right length and both neighbouring wrong lengths), Box::new / unbox, into_vec, into_boxed_slice, "
              "try_from_vec, try_from_boxed_slice, boxed into_iter + next/next_back, boxed map/zip/fold/clone. Bounds (Lmax, containers, live elements): quick (3,3,3) and (5,2,5) for 4-byte tracked, (3,2,4) zero-sized tracked, (2,2,3) 24-byte tracked; "
              "thorough (5,3,6), (4,3,5) zero-sized, (3,3,4) 24-byte and plain u32, in the release build. State key = sorted multiset of (kind, type-level length, outer length, element count, iterator front/back/origin). After every transition: each container's contents equal "
              "the reference, live ids undropped, all other ids dropped exactly once, nothing observed after drop (zero-sized: totals), and dropping the whole post-state leaves every element dropped exactly once. A case is one (state, operation)."),
